@@ -138,6 +138,10 @@ def sort_values(s, dom=None):
         return STR_DOM
     k = s[0]
     if k == "BV":
+        if s[1] > 10:
+            # the values of a wide vector cannot be enumerated: a pool of boundary values (as for Int)
+            top = 1 << s[1]
+            return tuple(dict.fromkeys((0, 1, 2, top >> 1, (top >> 1) - 1, top - 1, top - 2, 0x5A5A5A5A5A5A5A5A5 % top)))
         return tuple(range(1 << s[1]))
     if k == "Array":
         isort, esort = s[1], s[2]
